@@ -14,10 +14,10 @@ def independent(k, pool, dur, jitter, label, exits=None):
 def cases(chk, env):
     rng, tier = chk.rng, chk.tier
     out = list(S.load_corpus("C13"))
-    kmax = 5 if tier == "quick" else 8
+    kmax = 6 if tier == "quick" else 8
     for k in range(1, kmax + 1):
         for pool in range(1, k + 1):
-            for rep in range(2 if tier == "quick" else 6):
+            for rep in range(3 if tier == "quick" else 6):
                 out.append(independent(k, pool, rng.choice([60, 100, 150]), rng.randrange(1, 1 << 30), "independent"))
     # a failing or a never step must give its slot back / take none
     for k in (3, 4):
@@ -45,7 +45,7 @@ def cases(chk, env):
                 out.append(S.explicit_spec(4, es, [0] * 4, ["D"] * 4, pool, [50] * 4, rng.randrange(1, 1 << 30), "dag4"))
     # random graphs with file edges (no glob edges on absent outputs: that is C10's finding P16)
     n = 0
-    while n < (30 if tier == "quick" else 300):
+    while n < (60 if tier == "quick" else 300):
         sp = S.random_graph_spec(rng, label="random")
         if S.k_glob_absent(sp):
             continue
@@ -56,7 +56,7 @@ def cases(chk, env):
         n += 1
     # second runs: some steps are skipped, the others still share the pool
     n = 0
-    while n < (10 if tier == "quick" else 80):
+    while n < (20 if tier == "quick" else 80):
         sp = S.two_run_spec(rng, label="tworun")
         if S.k_glob_absent(sp):
             continue
@@ -89,7 +89,7 @@ def run(chk, replay=None):
         S.table_obligations(chk, env)
         chk.proof()
         S.probe_p13(env)
-        specs = [replay["input"]] if replay else cases(chk, env)
+        specs = ([replay["input"]] if "input" in replay else []) if replay else cases(chk, env)
         stats, rrs, infos, specs = S.drive(chk, env, "C13", specs, nontrivial)
         for sp, rr in zip(specs, rrs):
             for what, _ in judge_order_pool1(sp, rr)[:1]:
@@ -104,6 +104,6 @@ def run(chk, replay=None):
     chk.cov["rule"] = ("one evaluation = one real `xvc pipeline run` with process_pool_size set by -c, trace replayed through the extracted model (acquire / release lines carry the exact counter values), "
                        "journal judged: max overlap of [S,E] intervals <= pool, and for pool 1 the order is compatible with the graph. Cases: corpus (P11 witness first); k independent steps x pool 1..k "
                        "(k <= %d) x jitter seeds; failing / never steps; root -> k children -> sink with pool 1..k; all DAGs on 3 steps x pool 1,2; random 4-6-step graphs with file edges x pool 1..3. "
-                       "non-trivial = more commands started than the pool has slots; distinct by spec" % (5 if chk.tier == "quick" else 8))
+                       "non-trivial = more commands started than the pool has slots; distinct by spec" % (6 if chk.tier == "quick" else 8))
     chk.cov["exhaustive"] = False
     return chk
